@@ -216,13 +216,19 @@ let () =
       (* header: kind strat hs ha n base_mod *)
       let hs = ns (p 2) and ha = ns (p 3) and nn = int_of_string (p 4) and bm = ns (p 5) in
       let guarded = N.eqb (N.modulo hs ha) N0 in
-      let start_misaligned = not (N.eqb (N.modulo (N.add vbase bm) ha) N0) in
-      (* c15_segment_enough for the dynamic segment, on the implementation's own number *)
+      (* c15_segment_enough for the dynamic segment, on the implementation's own number.
+         Repeats are suppressed ONLY for the exact preconditions of the recorded finding F18
+         (dynamic segment, port-style layout, chunk alignment >= 16, payload start 8-aligned but
+         not aligned to the chunk alignment, exactly ONE bucket lost, concrete model agrees);
+         every other lost-bucket observation is printed in full. *)
       if guarded then
-        (if int_of_string impl < nn then
-           mismatch_spec_sig (Printf.sprintf "cap0:lost=%d:misaligned=%b" (nn - int_of_string impl) start_misaligned)
-             ("segment0-holds>=" ^ string_of_int nn) impl
-         else bump_extra "oracle_segment_enough_checked")
+        (if int_of_string impl < nn then begin
+           let f18 = (nn - int_of_string impl = 1) && N.leb (n_of_int 16) ha
+                     && N.eqb (N.modulo bm (n_of_int 8)) N0 && not (N.eqb (N.modulo bm ha) N0)
+                     && not !model_dead in
+           if f18 then mismatch_spec_sig "cap0:f18-preconditions" ("segment0-holds>=" ^ string_of_int nn) impl
+           else mismatch_spec ("segment0-holds>=" ^ string_of_int nn) impl
+         end else bump_extra "oracle_segment_enough_checked")
     | "dyn", "alloc" when is_ok ->
       cur_nontrivial := true;
       (match split_colon impl with
@@ -404,8 +410,14 @@ let () =
         Hashtbl.replace opcount k (1 + try Hashtbl.find opcount k with Not_found -> 0);
         let a i = List.nth args i in
         if not !impl_dead then begin
-          oracle name a impl;
-          if not !model_dead then model name a impl
+          (* dyn cap0: the model is replayed first so that the oracle knows whether it agreed *)
+          if !kind_name = "dyn" && name = "cap0" then begin
+            if not !model_dead then model name a impl;
+            oracle name a impl
+          end else begin
+            oracle name a impl;
+            if not !model_dead then model name a impl
+          end
         end;
         if impl = "P" then impl_dead := true
       | [] -> ()
